@@ -4,7 +4,7 @@ from mc.patterns import pat, P, H, obs_of
 from models import poly, selfcheck
 
 PROPERTY_ID = "C07"
-RULE = ("for every base tuple (key length x AAD length x ciphertext length): the valid tuple, every single-bit flip of the tag (128), of the nonce (96), "
+RULE = ("for every base tuple (key length x AAD length x ciphertext length): the valid tuple, every single-bit flip of the tag (128), every pair of tag bits (8128, on the base shapes), equal byte deltas in every pair of tag bytes, swapped/rotated/reversed/complemented tags, every single-bit flip of the nonce (96), "
         "of the key (all bits), every bit of ciphertext and AAD when <= 17 bytes else all bits of the first, last and 16-byte-boundary bytes, "
         "truncation/extension by one byte, moving a byte across the AAD/ciphertext boundary in both directions, swapping AAD and ciphertext, zero tag, "
         "tag of the swapped-length tuple; each case is decided by the one-shot decryptor and by the incremental decryptor in two chunkings; the "
@@ -105,6 +105,29 @@ def shard_shape(arg, tier):
         for t2 in flips(tag, 16):
             add(key, nonce, aad, ct, t2, True)
         add(key, nonce, aad, ct, bytes(16), True)
+        # tag: structured multi-position differences (a comparison that folds or accumulates could let them cancel): every pair of
+        # bits on two base shapes, otherwise equal deltas in two bytes at every distance, swapped / rotated / reversed / complemented tags
+        if cl in (ctlens[0], ctlens[-1]) and al in (0, 17, 63):
+            for i in range(128):
+                for j in range(i + 1, 128):
+                    t2 = bytearray(tag)
+                    t2[i // 8] ^= 1 << (i % 8)
+                    t2[j // 8] ^= 1 << (j % 8)
+                    add(key, nonce, aad, ct, bytes(t2), True)
+        for i in range(16):
+            for j in range(i + 1, 16):
+                for delta in (0x01, 0x80, 0xff):
+                    t2 = bytearray(tag)
+                    t2[i] ^= delta
+                    t2[j] ^= delta
+                    add(key, nonce, aad, ct, bytes(t2), True)
+                t2 = bytearray(tag)
+                t2[i] = (t2[i] + 1) & 0xff
+                t2[j] = (t2[j] - 1) & 0xff
+                add(key, nonce, aad, ct, bytes(t2), True)
+        for t2 in (tag[8:] + tag[:8], tag[1:] + tag[:1], tag[::-1], bytes(x ^ 0xff for x in tag), tag[:8] + tag[:8], tag[:15] + b"\x00"):
+            if t2 != tag:
+                add(key, nonce, aad, ct, t2, True)
         # nonce, key: every bit
         for n2 in flips(nonce, 12):
             add(key, n2, aad, ct, tag, True)
